@@ -291,6 +291,29 @@ def check_rotations(case):
                 got = gf(tuple(q))
                 if not np.allclose(got, want, rtol=1e-12, atol=1e-12):
                     raise Violation("pointwise", f"axes ({a},{b}) k={k}: f{idx}={arr[idx]} but g({q})={got}, expected {want}")
+    # the copying form returns objects of their own: whatever is done to the copies in place afterwards (full turns
+    # k = 0, +-4, 8 included) leaves the originals as they are
+    snap_m = (mesh.region.pmin.tobytes(), mesh.region.pmax.tobytes(), tuple(int(i) for i in mesh.n),
+              tuple((nm, s_.pmin.tobytes(), s_.pmax.tobytes()) for nm, s_ in mesh.subregions.items()))
+    for (a, b, k) in combos[:: max(1, len(combos) // 6)]:
+        if case["k"] > 1 and not (a in coa and b in coa):
+            continue
+        kw = {} if ref_arg is None else {"reference_point": ref_arg}
+        copies = [f.rotate90(dims[a], dims[b], **gen.nd_kw(k=k, **kw)), mesh.rotate90(dims[a], dims[b], **gen.nd_kw(k=k, **kw)),
+                  mesh.region.rotate90(dims[a], dims[b], **gen.nd_kw(k=k, **kw))]
+        shift = tuple(float(c) for c in lat.cell)
+        copies[0].mesh.translate(shift, inplace=True)
+        copies[0].mesh.rotate90(dims[a], dims[b], inplace=True)
+        copies[0].array[...] = 0
+        copies[0].valid[...] = False
+        copies[1].translate(shift, inplace=True)
+        copies[1].rotate90(dims[b], dims[a], inplace=True)
+        copies[2].scale(2.0, inplace=True)
+        now_m = (mesh.region.pmin.tobytes(), mesh.region.pmax.tobytes(), tuple(int(i) for i in mesh.n),
+                 tuple((nm, s_.pmin.tobytes(), s_.pmax.tobytes()) for nm, s_ in mesh.subregions.items()))
+        if snapshot(f) != snap or now_m != snap_m:
+            raise Violation("copy-shares-state-with-original", f"in-place changes of the copies returned for axes ({a},{b}) "
+                                                               f"k={k} changed the original")
     # in-place form on fresh objects for a drawn subset
     mapped_combos = [(a, b, k) for (a, b, k) in combos if case["k"] == 1 or (a in coa and b in coa)]
     for pick in case["inplace_picks"]:
@@ -359,6 +382,6 @@ SUBS = [
 # objects with a history (reads that may fill caches, in-place writes): observables equal those of a fresh object
 from pbt import aged as _aged  # noqa: E402
 
-SUBS.append(_aged.sub("C12", quick=120))
+SUBS.append(_aged.sub("C12", quick=250))
 ASSUMPTIONS = list(ASSUMPTIONS) + ["aged sub-property: library results are a function of the public primary state "
                                    "(corners, n, names, units, bc, subregions, array, validity, labels, mapping, unit)"]
